@@ -549,6 +549,28 @@ v('C14 C12', 'fire', I, '(increments.values - self.bias * dt).T).T', '(increment
 v('C14', 'fire', I, '                if scale_misal_sd[output_axis, input_axis] > 0:', '                if scale_misal_sd[input_axis, output_axis] > 0:')
 v('C14', 'fire', I, '                    q[n_noises] = bias_walk[axis]\n                    n_noises += 1\n\n                n_states += 1',
   '                    q[n_noises] = bias_walk[axis]\n\n                n_noises += 1\n                n_states += 1')
+# ------------------------------------------------------------------ RNG-SEED (round-9 seed C19)
+_CRS_OLD = 'from scipy._lib._util import check_random_state\n'
+_CRS_BAD = ('import numpy as _np\n\n\ndef check_random_state(seed):\n    if not seed:\n        return _np.random.mtrand._rand\n'
+            '    if isinstance(seed, (int, _np.integer)):\n        return _np.random.RandomState(seed)\n'
+            '    if isinstance(seed, _np.random.RandomState):\n        return seed\n    raise ValueError("bad seed")\n\n\n')
+_CRS_GOOD = _CRS_BAD.replace('if not seed:', 'if seed is None or seed is _np.random:')
+_CRS_LEAK = _CRS_BAD.replace('if not seed:', 'if seed is None or seed == 0:')
+v('C19 C14', 'fire', 'sim.py', _CRS_OLD, _CRS_BAD, 'seeded C19 round 9: local seed normaliser treats seed 0 as None')
+v('C19 C14', 'silent', 'sim.py', _CRS_OLD, _CRS_GOOD, 'local seed normaliser with the library helper\'s own tests')
+v('C19 C14', 'fire', 'sim.py', _CRS_OLD, _CRS_LEAK, 'global stream also for seed 0, spelled as a comparison')
+v('C19 C14', 'fire', 'inertial_sensor.py', '        self.rng = check_random_state(rng)', '        self.rng = check_random_state(rng or None)', 'seed tested by truth value at the call site')
+# ------------------------------------------------------------------ EMPTY-GUARD (round-9 seed C09)
+_EG_OLD = ('        if innovation:\n            columns = measurement.data.columns[:len(innovation[0])]\n'
+           '        else:\n            columns = measurement.data.columns\n')
+v('C09 C10', 'fire', 'filters.py', _EG_OLD, '        innovation = np.asarray(innovation)\n        columns = measurement.data.columns[:innovation.shape[1]]\n',
+  'seeded C09 round 9: second dimension of an empty innovation list', every=True)
+v('C09 C10', 'fire', 'filters.py', _EG_OLD, '        columns = measurement.data.columns[:len(innovation[0])]\n',
+  'first element of a possibly empty innovation list', every=True)
+v('C09 C10', 'silent', 'filters.py', _EG_OLD, '        if len(innovation) > 0:\n            columns = measurement.data.columns[:len(innovation[0])]\n'
+  '        else:\n            columns = measurement.data.columns\n', 'emptiness tested through len', every=True)
+v('C09 C10', 'silent', 'filters.py', _EG_OLD, '        if not innovation:\n            columns = measurement.data.columns\n'
+  '        else:\n            columns = measurement.data.columns[:len(innovation[0])]\n', 'arms exchanged', every=True)
 # ------------------------------------------------------------------ geometry C16 C05 C04 C03 C18
 T = 'transform.py'
 v('C16 C05', 'fire', T, '    rn, _, rp = earth.principal_radii(lla[:, 0], lla[:, 2])\n\n    lla[:, 0] +=',
